@@ -154,6 +154,8 @@ pub struct TxOut {
     pub sub_errors: Vec<String>,
     /// the chain-written JSON document (ibc-hooks callback / hook memo) could not be decoded by the contract
     pub undecodable: bool,
+    /// storage records read by the contract during this transaction (incl. replies)
+    pub reads: u64,
 }
 
 #[derive(Clone, Debug, Hash, PartialEq, Eq)]
@@ -363,7 +365,9 @@ impl World {
     pub fn exec(&mut self, sender: &str, msg: ExecuteMsg, funds: &[(String, u128)]) -> TxOut {
         let snap = self.clone();
         let mut out = TxOut::default();
+        crate::kv::reset_reads();
         let res = self.exec_inner(sender, msg, funds, &mut out);
+        out.reads = crate::kv::reads();
         self.finish(snap, res, out)
     }
 
